@@ -22,6 +22,10 @@ type Options struct {
 	IndentSize         int
 	AlignAmounts       bool
 	MinAlignmentColumn int
+	// KeepLines lists the lines (0-based) that must be left exactly as they are:
+	// the parser reported an error on them, so the syntax tree does not say
+	// everything they contain and rewriting them from it would delete text.
+	KeepLines map[int]bool
 }
 
 func DefaultOptions() Options {
@@ -70,7 +74,6 @@ func FormatDocumentWithOptions(journal *ast.Journal, content string, commodityFo
 			for j := range tx.Postings {
 				postingLines[tx.Postings[j].Range.Start.Line-1] = true
 			}
-
 			txEdits := formatTransactionWithOpts(tx, mapper, commodityFormats, globalAccountCol, opts)
 			edits = append(edits, txEdits...)
 		}
@@ -161,8 +164,11 @@ func formatTransactionWithOpts(tx *ast.Transaction, mapper *lsputil.PositionMapp
 
 	for i := range tx.Postings {
 		posting := &tx.Postings[i]
-		formatted := formatPostingWithOpts(posting, alignment, commodityFormats, indent, opts.AlignAmounts)
 		line := posting.Range.Start.Line - 1
+		if opts.KeepLines[line] {
+			continue
+		}
+		formatted := formatPostingWithOpts(posting, alignment, commodityFormats, indent, opts.AlignAmounts)
 
 		edit := protocol.TextEdit{
 			Range: protocol.Range{
